@@ -1571,9 +1571,13 @@ def gen_sweep(seed, j, out):
     """one accepted CA-anchored chain for the byte-flip sweep; chain j of this seed"""
     g = Gen(seed, 1000 + j)
     L = 1 + j % 4 if j % 5 != 4 else 1 + (j // 5) % 2     # the slow-EC chains stay short
+    pool = CHEAP_POOL if j % 5 != 4 else (SWEEP_EC_POOL if j >= 6 else [('ec256', 70), ('rsa1024', 30)])
+    if j % 6 == 5:
+        # P-521 keys only: their ECDSA signatures are the ones whose SEQUENCE needs the long length form (30 81 xx)
+        pool, L = [('ec521', 100)], 1
     while True:
         try:
-            case = g.base(L=L, pool=CHEAP_POOL if j % 5 != 4 else (SWEEP_EC_POOL if j >= 6 else [('ec256', 70), ('rsa1024', 30)]))
+            case = g.base(L=L, pool=pool)
         except Skip:
             continue
         if j % 3 == 2 and L >= 2:
